@@ -44,11 +44,22 @@ def decide(ctx, drv, name, args, cb, coefs, bound, replay):
         ctx.count("certified")
         return True
     # not certified: look for an exact witness point
-    xs = np.cos(np.linspace(0, math.pi, 20 * len(cheb) + 200))
-    vals = np.abs(np.polynomial.chebyshev.chebval(xs, np.array([float(v) for v in cheb])))
+    xs = np.cos(np.linspace(0, math.pi, 400 * len(cheb) + 2000))
+    cf = np.array([float(v) for v in cheb])
+    vals = np.abs(np.polynomial.chebyshev.chebval(xs, cf))
     order = np.argsort(-vals)[:5]
-    for j in order:
-        x = Fraction(float(xs[j])).limit_denominator(1 << 40)
+    cands = []
+    for j in order:             # refine each candidate between its grid neighbours (float search; the decision below is exact)
+        lo, hi = float(xs[min(j + 1, len(xs) - 1)]), float(xs[max(j - 1, 0)])
+        best = float(xs[j])
+        if hi > lo:
+            import scipy.optimize
+            res = scipy.optimize.minimize_scalar(lambda t: -abs(np.polynomial.chebyshev.chebval(t, cf)), bounds=(lo, hi), method="bounded", options={"xatol": 1e-14})
+            if -res.fun > abs(np.polynomial.chebyshev.chebval(best, cf)):
+                best = float(res.x)
+        cands.append(best)
+    for xb in cands:
+        x = Fraction(xb).limit_denominator(1 << 40)
         v = abs(pr(drv.ask("cheb.eval %s %s" % (rl(cheb), rs(x)))))
         if v > B:
             ctx.violation("c15:exceeds:%s:%s" % (name, "cheb" if cb else "mono"),
